@@ -185,6 +185,10 @@ def run(chk, repo, tier):
                     for e in bs.events[lp['n_pre_events']:]:
                         if e.kind == 'write' and e.data.get('how') == 'setitem' and isinstance(e.data.get('value'), Poly):
                             key, val = e.data['key'], e.data['value']
+                            ta_ = e.target.single_atom() if isinstance(e.target, Poly) else None
+                            if (key == nf.ELLIPSIS or (isinstance(key, nf.Slice) and key.lo in (NONE, None) and key.hi in (NONE, None))) \
+                                    and ta_ is not None and ta_[0] == 'idx' and isinstance(ta_[2], Poly):
+                                key = ta_[2]        # `plane[...] = ...` on the row view cube[k]: row k is written
                             mono = val.terms[0][0] if len(val.terms) == 1 else None
                             if mono and len(mono) == 1 and mono[0][0][0] == 'idx' or (mono and is_app(mono[0][0], 'pow')):
                                 pa = mono[0][0]
